@@ -122,23 +122,46 @@ fn vis_str(tcx: TyCtxt<'_>, d: DefId) -> String {
 }
 
 fn attr_strings(tcx: TyCtxt<'_>, d: LocalDefId) -> J {
-    // the source text of the item's outer attributes (for #[serde(..)] inspection)
-    let hir_id = tcx.local_def_id_to_hir_id(d);
+    // Derive-helper attributes (`#[serde(..)]`) are not lowered to HIR, so the attribute block that
+    // immediately precedes the item/field/variant is read from the source file: contiguous lines above
+    // the item that start with `#[`, are doc comments, or belong to a multi-line `#[ .. ]`.
     let sm = tcx.sess.source_map();
-    let mut v = vec![];
-    for a in tcx.hir_attrs(hir_id) {
-        let sp = match a {
-            rustc_hir::Attribute::Unparsed(item) => item.span,
-            _ => continue,
-        };
-        if sp.from_expansion() {
-            continue;
-        }
-        if let Ok(snip) = sm.span_to_snippet(sp) {
-            v.push(J::s(snip));
-        }
+    let sp = tcx.def_span(d.to_def_id());
+    if sp.from_expansion() {
+        return J::Arr(vec![]);
     }
-    J::Arr(v)
+    let lo = sm.lookup_char_pos(sp.lo());
+    let file = lo.file.clone();
+    let mut idx = lo.line as isize - 2; // 0-based index of the line above
+    let mut out: Vec<String> = vec![];
+    let mut in_multi = false;
+    let mut cur: Vec<String> = vec![];
+    while idx >= 0 {
+        let line = match file.get_line(idx as usize) {
+            Some(l) => l.to_string(),
+            None => break,
+        };
+        let t = line.trim().to_string();
+        if t.starts_with("#[") {
+            cur.push(t.clone());
+            cur.reverse();
+            out.push(cur.join(" "));
+            cur = vec![];
+            in_multi = false;
+        } else if in_multi {
+            cur.push(t.clone());
+        } else if t.starts_with("//") {
+            // comment / doc comment: skip but keep scanning
+        } else if t.ends_with(")]") || t == "]" {
+            in_multi = true;
+            cur.push(t.clone());
+        } else {
+            break;
+        }
+        idx -= 1;
+    }
+    out.reverse();
+    J::Arr(out.into_iter().map(J::s).collect())
 }
 
 fn dump_adt<'tcx>(cx: &mut Cx<'tcx>, did: DefId, local: bool) -> J {
